@@ -199,6 +199,14 @@ def save_model(
 
     compiler_options = _merge_default_options(compiler_options)
 
+    db_file = os.path.join(model_folder, model_name + ".pymoca_cache")
+    if compiler_options["codegen"]:
+        # The shared libraries are overwritten in place below. Invalidate the cache
+        # file first, so that an interrupted save can never leave an old cache file
+        # (valid for other compiler options) next to the new libraries.
+        with contextlib.suppress(FileNotFoundError):
+            os.remove(db_file)
+
     objects = {
         "dae_residual": None,
         "initial_residual": None,
@@ -214,7 +222,6 @@ def save_model(
             objects[o] = f
 
     # Output metadata
-    db_file = os.path.join(model_folder, model_name + ".pymoca_cache")
     with open(db_file, "wb") as f:
         db = {}
 
